@@ -33,6 +33,15 @@ chk("C16",
     "Trusted: TLC, harness frame splitter, zlib for constructing exact-size deflate streams. With compression the receive limits are compared with wire sizes.",
     "TLA+ specs (WsRecv.tla, WsChannel.tla) model-checked with TLC; TLC batch trace validation (WsRecvTrace, WsChannelTrace with deviation actions for known findings)", "5/C16")
 
+chk("C05",
+    "spec/WsConn.tla models one endpoint's lifecycle with one pure operator per entry point of the code (handshake done, sendClose, send APIs, onCloseFrame, data/ping/pong, protocol violation, the five timeout handlers, connectionLost) on a discrete clock; TLC checks ForwardOnly, onClose exactly once and only after the transport is gone, nothing written after onClose, at most one close frame, no data frame after it, clean only if close frames travelled both ways with the peer's code, unclean = 1006, ClosingIsGuarded and BoundedClose over all event sequences up to the bound for both roles x failByDrop x timeout and auto-ping settings; WsConnTrace.tla validates seeded random lifecycles of real endpoints (both roles, Twisted and asyncio, virtual time) by applying the spec operator of each event and demanding equality with the complete recorded projection, and checks every close frame written (legal code, valid UTF-8 reason <= 123 octets, application / peer code as required).",
+    "Trusted: TLC; the projection reads bookkeeping attributes and pending delayed calls of the protocol object. A peer sends at most one close frame; invalid peer close payloads are C02's business.",
+    "TLA+ spec (WsConn.tla) model-checked with TLC; TLC batch trace validation (WsConnTrace.tla) with full state projection after every event", "5/C05")
+chk("C17",
+    "The same WsConn.tla with discrete time (half seconds) and txaio's batched-timer quantisation: TLC checks OpenHandshakeDeadline, BoundedClose, PongDeadline, PingLoopAlive, PingTimeoutGuardsPending, NoTimerEffectAfterClosed, TimeoutReasonMatchesState and the arithmetic lemma that a batched timer fires < 1 s early and never late; time-heavy lifecycles of real endpoints over timeout / auto-ping grids (scenarios starting on whole and half seconds) are validated by WsConnTrace.tla, which compares the due time of each of the five timers after every event and the tick at which a timeout drops the connection.",
+    "Trusted: TLC; virtual clocks (twisted Clock / VLoop) standing in for the reactor; projection of pending delayed calls.",
+    "TLA+ spec (WsConn.tla) with explicit discrete time model-checked with TLC; TLC batch trace validation comparing timer due times (WsConnTrace.tla)", "5/C17")
+
 NA_ALL = ["C%02d" % i for i in range(1, 21)]
 for p in NA_ALL:
     if p not in CHECKS:
